@@ -292,8 +292,9 @@ THREAD_SINKS = ("set_num_threads", "get_fft_manager")
 
 
 def thread_flow_obligations(P, G):
-    """the configured thread count may only be compared (selecting thread set-up / a compilation
-    of the same kernel) or handed to the thread-setting calls; it must never become a value"""
+    """the configured thread count may only be compared (selecting thread set-up / a compilation of the same kernel) or
+    handed to the thread-setting calls; it must never become a value.  Local names bound to it (n = config.NUM_THREADS)
+    are followed: every use of such a name is held to the same rule."""
     obs = []
     for key in G.order:
         mod, fn, encl = G.nodes[key]
@@ -301,15 +302,38 @@ def thread_flow_obligations(P, G):
         for n in ast.walk(fn):
             for ch in ast.iter_child_nodes(n):
                 parents[ch] = n
-        for n in ast.walk(fn):
+
+        def is_setting(n):
             if not (isinstance(n, ast.Attribute) and n.attr == "NUM_THREADS" and isinstance(n.ctx, ast.Load)):
-                continue
+                return False
             dn = dotted_name(n) or ""
             head = dn.split(".")[0]
             tgt = mod.local_imports(fn).get(head) or mod.imports.get(head)
-            if tgt != "bldfm.config":
+            return tgt == "bldfm.config"
+
+        sources = [n for n in ast.walk(fn) if is_setting(n)]
+        aliases = set()
+        work = list(sources)
+        uses = []
+        seen = set()
+        while work:
+            n = work.pop()
+            if id(n) in seen:
                 continue
+            seen.add(id(n))
             p = parents.get(n)
+            # int(...) around the setting, or a conditional expression choosing between it and a constant, is still the setting
+            while (isinstance(p, ast.Call) and (dotted_name(p.func) or "") in ("int",) and n in p.args) or (
+                    isinstance(p, ast.IfExp) and n is not p.test and isinstance(p.orelse if p.body is n else p.body, ast.Constant)):
+                n, p = p, parents.get(p)
+            if isinstance(p, ast.Assign) and p.value is n and all(isinstance(t, ast.Name) for t in p.targets):
+                for t in p.targets:
+                    if t.id not in aliases:
+                        aliases.add(t.id)
+                        work.extend(x for x in ast.walk(fn) if isinstance(x, ast.Name) and x.id == t.id and isinstance(x.ctx, ast.Load))
+                continue
+            uses.append((n, p))
+        for n, p in uses:
             ok = False
             how = type(p).__name__
             if isinstance(p, ast.Compare):
@@ -324,6 +348,8 @@ def thread_flow_obligations(P, G):
                     how = "keyword argument of %s" % (dotted_name(pc.func) if isinstance(pc, ast.Call) else "?")
             elif isinstance(p, ast.Call):
                 how = "argument of %s" % (dotted_name(p.func) or "a call")
+            elif isinstance(p, (ast.JoinedStr, ast.FormattedValue)) or (isinstance(p, ast.Call) and (dotted_name(p.func) or "").split(".")[0] in ("logger", "logging")):
+                ok, how = True, "logged"
             obs.append(req_ob("R-PURE", "src/%s.py::%s" % (mod.name.replace(".", "/"), fn.name),
                               "the configured thread count is only compared or handed to the thread-setting calls (never used as a value)", ok,
                               detail=None if ok else "config.NUM_THREADS is used as %s (line %d)" % (how, n.lineno), key={"use": how}))
@@ -528,9 +554,10 @@ def _expect_series(tower, nsteps, flux, cache_name):
         if not (isinstance(v, Tup) and v.kind == "list" and len(v.items) == 1 and isinstance(v.items[0], GenList)):
             return False, "not a list generated over the time steps: %s" % repr(v)[:200]
         g = v.items[0]
-        if not (g.rng.start.eq(ZERO) and g.rng.step.eq(ONE) and g.rng.count.eq(nsteps)):
+        if not g.rng.count.eq(nsteps):
             return False, "steps run over range(%r, %r, %r)" % (g.rng.start, g.rng.stop, g.rng.step)
-        i = g.rng.start + alg.atom_expr(g.ivar) * g.rng.step
+        # the k-th element (k = 0 .. n_steps-1, whatever the loop variable is called or where it starts) must be step k
+        i = alg.atom_expr(g.ivar)
         want = alg.fn("single", tower.attrs["name"], i, flux if isinstance(flux, Expr) else alg.sym("no_flux"), alg.sym("cache:%s" % cache_name))
         if not (isinstance(g.elem, Expr) and g.elem.eq(want)):
             return False, "element is %s, expected %s" % (repr(g.elem)[:200], want)
